@@ -412,6 +412,7 @@ class World:
         self.handle_objs = []
         self.cls_ctx = []  # entered backend-wide context managers
         self.extra_res = []
+        self.extra_snaps = []  # snapshot of each operand resource right after it was created
         for r in cfg.objects:
             self.add_object(r)
 
@@ -425,16 +426,25 @@ class World:
         self.handle_objs.append(o)
         return o
 
-    def mk_synced(self, value):
-        res = env.resource_for(self.cfg.clsname, ABSENT)
-        self.extra_res.append(res)
+    FOREIGN = {"JSON": "JSONAttr", "JSONAttr": "JSON", "Buffered": "JSONAttr", "BufferedAttr": "Buffered",
+               "MemoryBuffered": "BufferedAttr", "MemoryBufferedAttr": "JSON"}
+
+    def mk_synced(self, value, foreign=False):
+        """A synced operand of the same family (foreign=True: of a different one): a real collection bound to its own
+        resource that already HOLDS the value (so that an operation which writes its operand is observable: see
+        extra_snaps)."""
         c = self.cfg.clsname
+        if foreign:
+            c = env.ALL_FAMILIES[self.FOREIGN.get(env.family_of(c), "JSONAttr")][0]
+        res = env.resource_for(c, copy.deepcopy(value))
+        self.extra_res.append(res)
+        self.extra_snaps.append(res.snapshot())
         k = env.kind_of(c)
         want = "dict" if isinstance(value, dict) else "list"
         if k != want:
             d, l = env.ALL_FAMILIES[env.family_of(c)]
             c = d if want == "dict" else l
-        return res.make(c, data=value)
+        return res.make(c)
 
     def apply(self, ev):
         """-> outcome ('ok', value) | ('exc', e) | None"""
